@@ -215,7 +215,7 @@ def pool():
            ((1, (2,)), 3)]              # unary above a token
     out = []
     for i, sh in enumerate(shs):
-        out.append(decorated(sh, i, sid=[7, 3, 3, 12, 100, 101, 5, 6][i]))
+        out.append(decorated(sh, i, sid=[7, 3, 3, 12, 100, 101, 0, 6][i]))
     return out
 
 
